@@ -7,7 +7,7 @@
    first error ends everything, completion comes with the last running
    source's completion, notifications of terminated sources are ignored. *)
 From RxVerif Require Import Base.Prelude Ops.Machine Ops.Multi Ops.MultiFacts Ops.RunLemmas
-  Ops.Combinators Ops.MergeFacts Ops.FlatMapFacts.
+  Ops.Combinators Ops.MergeFacts Ops.FlatMapFacts Ops.MergeConcFacts.
 
 Theorem C11_merge_refines_spec : forall A n (ins : list (Z * inp A)),
   temitted (fst (run (x_merge n) ins))
@@ -38,6 +38,32 @@ Theorem C11_flat_map_refines_spec : forall A (mapper : A -> nat -> res unit) (in
   temitted (fst (run (x_flat_map mapper) ins)) = flat_map_spec mapper true 0 [] 1 ins.
 Proof. exact @flat_map_refines_spec. Qed.
 Print Assumptions C11_flat_map_refines_spec.
+
+(* merge(max_concurrent = mc) after map(project) -- concat_map is mc = 1 --, for EVERY
+   mapper (also raising), EVERY mc and EVERY input sequence: what the subscriber
+   receives is [mc_spec]: at most mc inners run, the others wait in a FIFO queue
+   whose head starts exactly when a running inner completes; elements of running
+   inners pass at their own instant; first error ends everything; completion when
+   the outer has completed and nothing runs *)
+Theorem C11_merge_concurrent_refines_spec : forall A mc (mapper : A -> nat -> res unit) (ins : list (Z * inp A)),
+  temitted (fst (run (x_merge_concurrent mc mapper) ins)) = mc_spec mapper mc true 0 [] [] 1 ins.
+Proof. exact @merge_concurrent_refines_spec. Qed.
+Print Assumptions C11_merge_concurrent_refines_spec.
+
+(* after EVERY input sequence (hence at any time) at most mc inner sequences are subscribed *)
+Theorem C11_merge_concurrent_at_most_n_subscribed : forall A mc (mapper : A -> nat -> res unit) (ins : list (Z * inp A)),
+  (ninner (r_live (snd (run (x_merge_concurrent mc mapper) ins))) <= mc)%nat.
+Proof. exact @merge_concurrent_bounded. Qed.
+Print Assumptions C11_merge_concurrent_at_most_n_subscribed.
+
+(* concat_map: the second inner is subscribed only when the first completed, so its earlier elements are lost
+   (hot inner) and the output is the ordered concatenation *)
+Example C11_witness_concat_map :
+  temitted (fst (run (x_merge_concurrent 1 (fun _ _ => Ok tt))
+     [(0, ISrc 0%nat (Next 1)); (0, ISrc 0%nat (Next 2)); (0, ISrc 2%nat (Next 20)); (0, ISrc 1%nat (Next 10));
+      (0, ISrc 1%nat Done); (0, ISrc 2%nat (Next 21)); (0, ISrc 0%nat Done); (0, ISrc 2%nat Done)]))
+  = [(4%nat, Next 10); (6%nat, Next 21); (8%nat, Done)].
+Proof. vm_compute. reflexivity. Qed.
 
 Example C11_witness_flat_map :
   temitted (fst (run (x_flat_map (fun _ _ => Ok tt))
